@@ -370,16 +370,20 @@ def run_app_system(pid, tier, v):
 
 ASSUMPTIONS = [
     "whole-program stage: the instances run in one process (app.New + App.Start per instance, own registry, data directory, configuration file, "
-    "cluster label); a kill is a frozen copy of the data directory at the kill instant followed by a teardown, so peers see a leave, not a failed "
-    "probe (failure detection: real-peer stage); the webhook receiver always answers 200",
+    "cluster label, peer name am<i>-<generation>); a kill is a frozen copy of the data directory at the kill instant followed by a teardown, so peers "
+    "see a leave, not a failed probe (failure detection: real-peer stage); the webhook receiver answers 200 after 1.2 s (a delivery has a duration), "
+    "a post 'to all' reaches the instances one after the other, 0.6 s apart",
     "whole-program stage: real time with tolerances - a missing notification is a violation only after settle timeout + group_wait + 3 flush cycles "
     "at the instance's position + its wait + 10 s during which every observation (4 per second) showed the instance ready (GET /-/ready 200, cluster "
     "status ready), at one position, listing the alert unsilenced, and only if a control alert posted to every running instance during the extension "
     "was delivered; a duplicate only in fault-free runs with complete member lists, farther apart than 10 x the gossip latency measured in that run "
-    "(>= 300 ms) and closer than repeat_interval / 2; anything else is an inconclusive case",
+    "(>= 300 ms; + delivery duration + post stagger unless the alert was posted exactly once, to all instances) and closer than repeat_interval / 2; "
+    "a repeat after a restart only within 3/4 repeat_interval and only if the first delivery reached the receiver >= 4.2 s before a clean stop "
+    "(maintenance interval + 5.2 s before a kill); a lost silence only if acknowledged before a clean stop (maintenance interval + 5.2 s before a "
+    "kill); anything else is an inconclusive case",
     "whole-program stage: group_interval 10 s / peer_timeout 12 s where the flush deadline rule matters (notify.MinTimeout is a 10 s constant), "
-    "otherwise 3 s / 3 s; repeat_interval 35 s / 20 s; group_wait 1 s; gossip interval 20 ms; push-pull 10 s; settle timeout 5 s; resolve_timeout 3 min "
-    "(no alert resolves inside a scenario)",
+    "otherwise 3 s / 3 s; repeat_interval 35 s / 20 s; group_wait 1 s; gossip interval 20 ms; push-pull 10 s; settle timeout 5 s; data maintenance "
+    "interval 4 s in restart scenarios; resolve_timeout 3 min (no alert resolves inside a scenario)",
 ]
 
 
